@@ -63,6 +63,7 @@ class World(Domain):
         self.next_id = 1
         self.created = []          # every create_node call, in order
         self.lazy_services = False
+        self._in_node_str = False
         self.typecheck = False     # run the interpreted type checker on every constructed node
         self.real_manager = False  # True: FormulaManager (create_node, tables, type check) is interpreted from source
         self._real_stc = None
@@ -566,6 +567,17 @@ class World(Domain):
         if isinstance(x, (SymInt, SymBool)):
             return True, SymStr([x])
         if isinstance(x, AObj):
+            if self.is_node(x) and self.lazy_services and not self._in_node_str:
+                # with full services str(node) is what FNode.__str__ gives (the human-readable printer, interpreted)
+                self._in_node_str = True
+                try:
+                    r = it.call(it.getattr(x, "__str__"), [])
+                    if isinstance(r, str):
+                        return True, r
+                except Unsupported:
+                    pass
+                finally:
+                    self._in_node_str = False
             if x.cls in self.repo.classes and not self.is_node(x):
                 for nm in ("__str__", "__repr__"):
                     q, f = self.repo.find_method(x.cls, nm)
